@@ -230,6 +230,83 @@ def run_op(pay, cache, op):
     raise ValueError(kind)
 
 
+GROW_BASE = 1 << 32
+
+
+def grow_bundle(cfg, cache, arg):
+    """compact caches: the bundle file of the address grows past 4 GiB (bundles only grow: replaced and removed
+    tiles stay in the file as dead records until defragmentation).  The dead space is a sparse hole."""
+    (x, y, z), pad = arg
+    try:
+        fname = cache._get_bundle_fname_and_offset((x, y, z))[0] + '.bundle'
+        if not os.path.exists(fname):
+            return ['done']
+        size = os.path.getsize(fname)
+        os.truncate(fname, max(size, GROW_BASE) + pad)
+        return ['done']
+    except Exception as e:  # noqa
+        return ['raised', type(e).__name__]
+
+
+class FaultyFile(object):
+    """file object of mapproxy.cache.compact whose n-th write() fails with EIO (earlier writes reach the disk
+    when the file is closed)"""
+
+    def __init__(self, fobj, state):
+        self._f, self._state = fobj, state
+
+    def write(self, data):
+        self._state['n'] += 1
+        if self._state['n'] == self._state['fail_at']:
+            self._state['failed'] = True
+            import errno
+            raise OSError(errno.EIO, 'injected write error')
+        return self._f.write(data)
+
+    def __getattr__(self, name):
+        return getattr(self._f, name)
+
+    def __enter__(self):
+        return self
+
+    def __exit__(self, *a):
+        self._f.close()
+        return False
+
+
+def run_store_fault(pay, cache, op):
+    """store_tile during which the n-th write() to a bundle / index file fails; afterwards the address is read
+    back: ['fault', content or None] or ['nofault'] when the store issued fewer writes."""
+    import builtins
+    import mapproxy.cache.compact as cc
+    (x, y, z, dims), pid, n = op[1], op[2], op[3]
+    state = {'n': 0, 'fail_at': n, 'failed': False}
+
+    def faulty_open(name, mode='r', *a, **kw):
+        f = builtins.open(name, mode, *a, **kw)
+        if '+' in mode or 'w' in mode or 'a' in mode:
+            return FaultyFile(f, state)
+        return f
+    cc.open = faulty_open
+    try:
+        try:
+            cache.store_tile(new_tile(pay, (x, y, z), pid), dimensions=dims_arg(dims))
+        except OSError:
+            pass
+        except Exception as e:  # noqa
+            return ['raised', type(e).__name__]
+    finally:
+        del cc.open
+    if not state['failed']:
+        return ['nofault']
+    try:
+        t = new_tile(pay, (x, y, z))
+        cache.load_tile(t, dimensions=dims_arg(dims))
+        return ['fault', read_source(pay, t)]
+    except Exception as e:  # noqa
+        return ['raised', type(e).__name__]
+
+
 def run_history(ctx, pay, cfg, ops):
     d = ctx.tmpdir('c')
     cache = make_backend(cfg, d)
@@ -244,6 +321,10 @@ def run_history(ctx, pay, cfg, ops):
                     outs.append(['done'])
                 except Exception as e:  # noqa
                     outs.append(['raised', type(e).__name__])
+            elif op[0] == 'grow':
+                outs.append(grow_bundle(cfg, cache, op[1]))
+            elif op[0] == 'store_fault':
+                outs.append(run_store_fault(pay, cache, op))
             else:
                 outs.append(run_op(pay, cache, op))
         return outs
@@ -257,19 +338,36 @@ def run_history(ctx, pay, cfg, ops):
 
 def op_addresses(op):
     k = op[0]
-    if k == 'reopen':
+    if k in ('reopen', 'grow'):
         return []
-    if k in ('store', 'load', 'cached', 'remove'):
+    if k in ('store', 'load', 'cached', 'remove', 'store_fault'):
         return [tuple(op[1])]
     if k == 'store_many':
         return [(c[0], c[1], c[2], tuple(op[2])) for (c, _) in op[1]]
     return [(c[0], c[1], c[2], tuple(op[2])) for c in op[1]]
 
 
-def spec_outputs(pay, ops):
+def spec_outputs(pay, ops, observed=None):
     m, outs = {}, []
-    for op in ops:
+    for i, op in enumerate(ops):
         k = op[0]
+        if k == 'store_fault':
+            # a store that fails half way either took place or did not (decided by what the address returns right
+            # afterwards); anything else - and any later effect on another address - is a failure
+            a, pid = tuple(op[1]), op[2]
+            got = observed[i] if observed is not None else ['nofault']
+            old = m.get(a)
+            if got == ['nofault']:
+                m[a] = pid
+                outs.append(got)
+            elif got[0] == 'fault' and got[1] == list(pay.pixels[pid]):
+                m[a] = pid
+                outs.append(got)
+            elif got[0] == 'fault' and got[1] == (None if old is None else list(pay.pixels[old])):
+                outs.append(got)
+            else:
+                outs.append(['fault', 'old-or-new-content-expected'])
+            continue
         if k == 'store':
             m[tuple(op[1])] = op[2]
             outs.append(['done'])
@@ -289,7 +387,7 @@ def spec_outputs(pay, ops):
             m.pop(tuple(op[1]), None)
             outs.append(['done'])
         else:
-            outs.append(['done'])          # reopen
+            outs.append(['done'])          # reopen, grow
     return outs
 
 
@@ -304,7 +402,9 @@ def classify(cfg, ops, i, exp, got):
     if got and got[0] == 'raised':
         return base + ',raised-' + got[1]
     k = ops[i][0]
-    if k == 'load':
+    if k == 'store_fault':
+        what = 'failed-store-leaves-foreign-content'
+    elif k == 'load':
         if exp[2] is None:
             what = 'load-returns-data-for-absent-address'
         elif got[2] is None:
@@ -361,7 +461,7 @@ def explain_f4(cfg, ops, i):
 
 
 def oracle(ctx, pay, cfg, ops, outs, origin):
-    exp = spec_outputs(pay, ops)
+    exp = spec_outputs(pay, ops, outs)
     for i, (e, g) in enumerate(zip(exp, outs)):
         if e == g:
             continue
@@ -526,7 +626,7 @@ def gen_pool(rng, cfg, size, valid=True):
     return pool[:size]
 
 
-def gen_ops(rng, pay, pool, length, link=False):
+def gen_ops(rng, pay, pool, length, link=False, compact=False):
     ops = []
     mono_bias = 0.5 if link else 0.2
     by_dims = {}
@@ -540,6 +640,12 @@ def gen_ops(rng, pay, pool, length, link=False):
     for _ in range(length):
         r = rng.random()
         a = rng.choice(pool)
+        if compact and rng.random() < 0.08:
+            if rng.random() < 0.75:
+                ops.append(('store_fault', a, pid(), rng.randrange(1, 8)))
+            else:
+                ops.append(('grow', ((a[0], a[1], a[2]), rng.randrange(0, 6000))))
+            continue
         if r < 0.27:
             ops.append(('store', a, pid()))
         elif r < 0.34:
@@ -659,6 +765,10 @@ def normalise_op(o):
         return (k, norm_addr(o[1]))
     if k == 'reopen':
         return ('reopen',)
+    if k == 'grow':
+        return ('grow', ((o[1][0][0], o[1][0][1], o[1][0][2]), o[1][1]))
+    if k == 'store_fault':
+        return ('store_fault', norm_addr(o[1]), o[2], o[3])
     raise ValueError(k)
 
 
@@ -676,6 +786,29 @@ def f4_probes():
                 [('store', (0, 0, 0, ()), 6), ('store', (1, 0, 0, ()), 7), ('load', (0, 0, 0, ()))], 'probe:F4-quadkey'))
     out.append(({'kind': 'file', 'layout': 'quadkey', 'link': 'none'},
                 [('store', (1, 2, 2, ()), 6), ('store', (5, 2, 2, ()), 7), ('load', (1, 2, 2, ()))], 'probe:F4-quadkey'))
+    return out
+
+
+def compact_probes():
+    """interrupted stores and bundles beyond 4 GiB (compact v1 / v2)"""
+    out = []
+    a, b, c = (127, 127, 3, ()), (0, 0, 3, ()), (5, 6, 3, ())
+    for k in COMPACT_KINDS:
+        for n in range(1, 8):
+            out.append(({'kind': k}, [('store', c, 8), ('store_fault', a, 9, n), ('store', b, 10), ('load', a), ('load', b),
+                                      ('load', c), ('load_many', [(127, 127, 3), (0, 0, 3), (5, 6, 3)], ()),
+                                      ('store_fault', b, 11, n), ('store', c, 12), ('load', a), ('load', b), ('load', c)],
+                        'probe:interrupted-store'))
+        for pad in (0, 60, 64 + 8 * 16384 + 4, 4999):
+            out.append(({'kind': k}, [('store', (255, 255, 9, ()), 6), ('store', (128, 128, 9, ()), 7),
+                                      ('grow', ((128, 128, 9), pad)),
+                                      ('store', (129, 128, 9, ()), 8), ('load', (129, 128, 9, ())),
+                                      ('store_many', [((130, 128, 9), 9), ((255, 255, 9), 10)], ()),
+                                      ('load_many', [(255, 255, 9), (128, 128, 9), (129, 128, 9), (130, 128, 9)], ()),
+                                      ('remove', (129, 128, 9, ())), ('cached', (129, 128, 9, ())), ('cached', (130, 128, 9, ())),
+                                      ('store', (128, 128, 9, ()), 11), ('reopen',), ('load', (128, 128, 9, ())),
+                                      ('load', (130, 128, 9, ())), ('load', (255, 255, 9, ()))],
+                        'probe:bundle-beyond-4GiB'))
     return out
 
 
@@ -768,6 +901,151 @@ def slot_cases(ctx, terms, descr):
         descr.append({'coord': [x, y, z], 'bundle': rel, 'offset': list(off), 'v1_index_offset': o1, 'v2_index_offset': o2})
 
 
+# ----------------------------------------------------------------------------- tile manager on a dimension cache
+
+TM_COLORS = {'A': (0, 0, 255), 'B': (0, 255, 0), None: (255, 0, 0)}
+
+
+class GatedCache(object):
+    """The cache object of the second request: after its first load_tiles / is_cached answer another request
+    (`between`) runs to completion - the schedule in which a concurrent request creates the tiles between the
+    look-up of this request and its tile lock."""
+
+    def __init__(self, real, gate, between):
+        self.__dict__.update(_real=real, _gate=gate, _between=between, _done=False)
+
+    def __getattr__(self, name):
+        return getattr(self._real, name)
+
+    def _fire(self):
+        if not self._done:
+            self.__dict__['_done'] = True
+            self._between()
+
+    def load_tiles(self, tiles, with_metadata=False, dimensions=None):
+        r = self._real.load_tiles(tiles, with_metadata, dimensions=dimensions)
+        if self._gate == 'after-lookup':
+            self._fire()
+        return r
+
+    def is_cached(self, tile, dimensions=None):
+        r = self._real.is_cached(tile, dimensions=dimensions)
+        if self._gate == 'after-is-cached':
+            self._fire()
+        return r
+
+
+def tilemanager_cases(ctx, pay):
+    """Requests through the real TileManager (meta tiles, single tiles, bulk meta tiles) on a file cache with a
+    TIME dimension: what a request returns for (coord, TIME=A) is what is stored for exactly that address, also
+    when another request stored the tiles while this one was between its look-up and its tile lock, and with
+    tiles at the same coordinate that differ only in the dimension value."""
+    from PIL import Image
+    from mapproxy.cache.base import TileLocker
+    from mapproxy.cache.file import FileCache
+    from mapproxy.cache.tile import Tile, TileManager
+    from mapproxy.grid import TileGrid
+    from mapproxy.image import ImageSource
+    from mapproxy.image.opts import ImageOptions
+    from mapproxy.layer import MapLayer
+    from mapproxy.srs import SRS
+    import shutil
+
+    def make_source(meta):
+        class DimSource(MapLayer):
+            supports_meta_tiles = meta
+
+            def __init__(self):
+                MapLayer.__init__(self)
+                self.requested = []
+
+            def get_map(self, query):
+                value = (query.dimensions or {}).get('time')
+                self.requested.append(value)
+                img = Image.new('RGB', query.size, TM_COLORS.get(value, (9, 9, 9)))
+                img.putpixel((0, 0), (1, 2, 3))      # not a single colour image
+                return ImageSource(img, image_opts=ImageOptions(format='image/png'))
+        return DimSource()
+
+    def tbytes(tile):
+        if tile is None or tile.source is None:
+            return None
+        buf = tile.source.as_buffer()
+        buf.seek(0)
+        return buf.read()
+
+    def colour(data):
+        if data is None:
+            return None
+        return Image.open(BytesIO(data)).convert('RGB').getpixel((128, 128))
+
+    opts = ImageOptions(format='image/png')
+    modes = {'meta': dict(meta_size=[2, 2], meta_buffer=0), 'single': dict(meta_size=[1, 1], meta_buffer=0),
+             'bulk-meta': dict(meta_size=[2, 2], meta_buffer=0, bulk_meta_tiles=True)}
+    n = 0
+    for layout in ('tc', 'tms', 'mp', 'reverse_tms'):
+        for mode in ('meta', 'single', 'bulk-meta'):
+            for gate in ('none', 'after-lookup', 'after-is-cached'):
+                for prefill in ('nothing', 'no-dimension', 'other-value'):
+                    if ctx.quick and layout in ('mp', 'reverse_tms') and prefill == 'nothing':
+                        continue
+                    n += 1
+                    d = ctx.tmpdir('tm')
+                    desc = {'stream': 'tile-manager', 'layout': layout, 'mode': mode, 'schedule': gate,
+                            'prefilled': prefill, 'request': {'coords': [[1, 0, 2], [0, 1, 2]], 'dimensions': {'time': 'A'}}}
+                    ctx.case(('tm', layout, mode, gate, prefill), gate != 'none' or prefill != 'nothing')
+                    ctx.count('tile-manager/' + mode)
+                    try:
+                        cache = FileCache(os.path.join(d, 'cache'), 'png', directory_layout=layout)
+                        grid = TileGrid(SRS(4326), bbox=[-180, -90, 180, 90])
+                        src = make_source(mode != 'bulk-meta')
+                        kw = modes[mode]
+                        mgr1 = TileManager(grid, cache, [src], 'png', image_opts=opts,
+                                           locker=TileLocker(os.path.join(d, 'locks'), 10, 'c05'), **kw)
+                        coords = [(1, 0, 2), (0, 1, 2)]
+                        dims = {'time': 'A'}
+                        other = {'no-dimension': None, 'other-value': {'time': 'B'}}.get(prefill)
+                        prefilled = {}
+                        if prefill != 'nothing':
+                            for c in coords:
+                                img = Image.new('RGB', (256, 256), TM_COLORS[other['time'] if other else None])
+                                img.putpixel((0, 0), (3, 2, 1))
+                                cache.store_tile(Tile(c, ImageSource(img, image_opts=opts)), dimensions=other)
+                                t = Tile(c)
+                                cache.load_tile(t, dimensions=other)
+                                prefilled[c] = tbytes(t)
+                        gated = GatedCache(cache, gate, lambda: mgr1.load_tile_coords(coords, dimensions=dims))
+                        mgr2 = TileManager(grid, gated, [src], 'png', image_opts=opts,
+                                           locker=TileLocker(os.path.join(d, 'locks'), 10, 'c05'), **kw)
+                        got = [tbytes(t) for t in mgr2.load_tile_coords(coords, dimensions=dims)]
+                        problems = []
+                        for c, g in zip(coords, got):
+                            t = Tile(c)
+                            cache.load_tile(t, dimensions=dims)
+                            stored = tbytes(t)
+                            if stored is None or colour(stored) != TM_COLORS['A']:
+                                problems.append(('store-address', 'nothing / wrong content stored for %r TIME=A (colour %r)'
+                                                 % (c, colour(stored))))
+                            elif g != stored:
+                                problems.append(('load-address', 'request returned %s for %r TIME=A, stored for that address: colour %r'
+                                                 % ('no tile' if g is None else 'colour %r' % (colour(g),), c, colour(stored))))
+                            if prefill != 'nothing':
+                                t = Tile(c)
+                                cache.load_tile(t, dimensions=other)
+                                if tbytes(t) != prefilled[c]:
+                                    problems.append(('other-address-changed', 'tile %r %r changed' % (c, other)))
+                        for kind, what in problems[:1]:
+                            ctx.fail('tile-manager,mode=%s,%s' % (mode, kind),
+                                     'TileManager(%s) on FileCache(%s), schedule %s, prefilled %s: %s' % (
+                                         mode, layout, gate, prefill, what), desc)
+                    except Exception as e:  # noqa
+                        ctx.fail('tile-manager,mode=%s,raised-%s' % (mode, type(e).__name__),
+                                 'TileManager request raised %r' % (e,), desc)
+                    finally:
+                        shutil.rmtree(d, ignore_errors=True)
+    return n
+
+
 # ----------------------------------------------------------------------------- main
 
 def nontrivial_history(ops):
@@ -793,6 +1071,7 @@ def run(ctx):
         todo.append((cfg, ops, origin))
     todo += f4_probes()
     todo += dup_probes()
+    todo += compact_probes()
 
     cfgs = all_configs()
     # 2. bounded exhaustive short histories over three colliding addresses (each from the empty state of the
@@ -836,7 +1115,8 @@ def run(ctx):
         for _ in range(ctx.n(3 if slow else 6, 30 if slow else 60)):
             pool = gen_pool(rng, cfg, rng.choice([3, 4, 6, 8, 10, 14]))
             length = rng.choice([10, 30, 60, 120, 200]) if not (slow and ctx.quick) else rng.choice([10, 30, 60])
-            todo.append((cfg, gen_ops(rng, pay, pool, length, cfg.get('link', 'none') != 'none'), 'random'))
+            todo.append((cfg, gen_ops(rng, pay, pool, length, cfg.get('link', 'none') != 'none',
+                                      compact=cfg['kind'] in COMPACT_KINDS), 'random'))
     # 3b. the regime of finding F4 (dimensions on arcgis / quadkey, quadkey addresses outside the quad range)
     for lay in NO_DIM_LAYOUTS:
         for _ in range(ctx.n(2, 20)):
@@ -860,9 +1140,22 @@ def run(ctx):
         oracle(ctx, pay, cfg, ops, outs, origin)
         big = origin == 'big-bulk-load'
         # re-opening is the identity of the models (their state is the persistent state): not part of the term
-        mops = [(o, r) for (o, r) in zip(ops, outs) if o[0] != 'reopen' or r != ['done']]
+        # a store that failed half way is, for the models, the store it turned out to be (or nothing); growing a
+        # bundle file is the identity of the key-level model
+        mops = []
+        for (o, r) in zip(ops, outs):
+            if o[0] in ('reopen', 'grow'):
+                if r != ['done']:
+                    mops.append((None, r))
+            elif o[0] == 'store_fault':
+                if r == ['nofault'] or (r[0] == 'fault' and r[1] == list(pay.pixels[o[2]])):
+                    mops.append((('store', o[1], o[2]), ['done']))
+                elif r[0] != 'fault':
+                    mops.append((None, r))
+            else:
+                mops.append((o, r))
         (bterms if big else terms).append('(%s,\n [%s],\n [%s])' % (
-            cfg_lit(cfg), ';\n  '.join(op_lit(pay, o) for (o, _) in mops if o[0] != 'reopen'),
+            cfg_lit(cfg), ';\n  '.join(op_lit(pay, o) for (o, _) in mops if o is not None),
             '; '.join(out_lit(r) for (o, r) in mops)))
         (bdescr if big else descr).append({
             'backend': cfg, 'origin': origin, 'history': ops if len(ops) <= 40 else ops[:40] + ['...'],
@@ -872,6 +1165,8 @@ def run(ctx):
                    lambda i: descr[i], shard=min(12, max(1, len(terms) // 32 + 1)), defs=DEFS)
     ctx.corr_check('bulk_load_batches', IMPORTS, 'backend * list op * list out', bterms, checker,
                    lambda i: bdescr[i], shard=1, defs=DEFS)
+
+    tilemanager_cases(ctx, pay)
 
     pterms, pdescr = [], []
     path_cases(ctx, pterms, pdescr)
